@@ -186,6 +186,13 @@ func main() {
 		dbt.ParkedWriterScenario(pw)
 		flush(pw)
 		pw.Close()
+	case "txnfail":
+		// failing calls as later writes of a session transaction (C02: they leave the transaction's working state as it was)
+		tf := mk()
+		tf.Hist = 8889
+		dbt.TxnFailureScenario(tf)
+		flush(tf)
+		tf.Close()
 	case "alias":
 		e := mk()
 		dbt.AliasScenarios(e)
